@@ -149,6 +149,195 @@ def _has_depth_marker(ctx) -> bool:
     return any(getattr(s, "_max_depth_exceeded_marker", False) for s in ctx.parsed_schemas.values())
 
 
+def _refs(n) -> list[str]:
+    out: list[str] = []
+    if isinstance(n, dict):
+        if isinstance(n.get("$ref"), str):
+            out.append(n["$ref"].split("/")[-1])
+        for x in n.values():
+            out += _refs(x)
+    elif isinstance(n, list):
+        for x in n:
+            out += _refs(x)
+    return out
+
+
+def _inline_object_refs(n) -> list[str]:
+    out: list[str] = []
+    if isinstance(n, dict):
+        if isinstance(n.get("properties"), dict):
+            out += _refs(n["properties"])
+        for x in n.values():
+            out += _inline_object_refs(x)
+    elif isinstance(n, list):
+        for x in n:
+            out += _inline_object_refs(x)
+    return out
+
+
+def union_inline_object_cycle(schemas: dict) -> bool:
+    """Trigger of C08-F03: a named oneOf/anyOf schema with an inline object (at any depth) whose $ref leads back to that schema."""
+    def reach(start):
+        seen, todo = set(), [start]
+        while todo:
+            u = todo.pop()
+            if u in seen or u not in schemas:
+                continue
+            seen.add(u)
+            todo += _refs(schemas[u])
+        return seen
+
+    for name, node in schemas.items():
+        if isinstance(node, dict) and ("oneOf" in node or "anyOf" in node):
+            if any(name in reach(t) for t in _inline_object_refs(node)):
+                return True
+    return False
+
+
+_EXCL = None
+
+
+def union_inline_object_cycle_excluded(schemas: dict) -> bool:
+    global _EXCL
+    if _EXCL is None:
+        from .. import domain
+
+        _EXCL = domain.excluded("C08")
+    return "union_inline_object_cycle" in _EXCL and union_inline_object_cycle(schemas)
+
+
+def cut_by_cycle_detection(schemas: dict) -> list[Violation]:
+    """A SMALL cyclic document must be cut by cycle detection, not by the depth limit: with the limit switched off it still has to
+    load within the event budget and without exhausting the interpreter stack (the property quantifies over PYOPENAPI_MAX_DEPTH
+    settings; a limit above ~280 tracker levels is otherwise a stack overflow waiting for the first such cycle)."""
+    if budget_for(schemas) > 200 * 60 * 60:
+        return []
+    old = os.environ.get("PYOPENAPI_MAX_DEPTH")
+    os.environ["PYOPENAPI_MAX_DEPTH"] = "1000000"
+    try:
+        t = graphparse.build(schemas, budget_for(schemas))
+    finally:
+        if old is None:
+            os.environ.pop("PYOPENAPI_MAX_DEPTH", None)
+        else:
+            os.environ["PYOPENAPI_MAX_DEPTH"] = old
+    if t.recursion_error:
+        return [Violation(("cycle_cut_only_by_depth_limit", "recursion_error_with_limit_off"), f"tracker depth {t.max_tracker_depth} after {t.enters} enters; schemas={json.dumps(schemas)[:600]}")]
+    if t.budget_exceeded:
+        return [Violation(("cycle_cut_only_by_depth_limit", "event_budget_exceeded_with_limit_off"), f"schemas={json.dumps(schemas)[:600]}")]
+    return []
+
+
+def evaluate_ops(case: dict) -> list[Violation]:
+    """Whole documents through load_ir_from_spec: operations whose inline request/response schemas contain sub-schemas the parser
+    rejects (boolean schemas, lists, scalars).  parse_operations swallows such a failure per operation and goes on with the SAME
+    parsing context, so the tracker must be back at rest after the document, and operations parsed afterwards must be unaffected."""
+    from pyopenapi_gen.core.loader import loader as L
+    from pyopenapi_gen.core.parsing.unified_cycle_detection import SchemaState
+
+    spec = case["spec"]
+    captured: dict = {}
+    real_build = L.build_schemas
+
+    def capturing(raw_schemas, raw_components):
+        ctx = real_build(raw_schemas, raw_components)
+        captured["ctx"] = ctx
+        return ctx
+
+    old = os.environ.get("PYOPENAPI_MAX_DEPTH")
+    if case.get("limit"):
+        os.environ["PYOPENAPI_MAX_DEPTH"] = str(case["limit"])
+    L.build_schemas = capturing
+    ir = None
+    exc = None
+    try:
+        try:
+            ir = graphparse.load_ir(spec)
+        except RecursionError as e:
+            return [Violation(("ops", "recursion_error"), repr(e)[:200])]
+        except Exception as e:  # whole-document rejection
+            exc = e
+    finally:
+        L.build_schemas = real_build
+        if old is None:
+            os.environ.pop("PYOPENAPI_MAX_DEPTH", None)
+        else:
+            os.environ["PYOPENAPI_MAX_DEPTH"] = old
+    ctx = captured.get("ctx")
+    if ctx is None or exc is not None:
+        return []
+    v: list[Violation] = []
+    tr = ctx.unified_cycle_context
+    if tr.schema_stack or tr.recursion_depth != 0:
+        v.append(Violation(("ops", "tracker_not_at_rest_after_document"), f"depth={tr.recursion_depth} stack={list(tr.schema_stack)[:6]}"))
+    leaked = sorted(n for n, st in tr.schema_states.items() if st == SchemaState.IN_PROGRESS)
+    if leaked:
+        v.append(Violation(("ops", "schema_left_in_progress"), f"{leaked[:6]}"))
+    # the sentinel operation (declared last, always valid, two levels of inline nesting) must come out intact
+    sent = [o for o in (ir.operations if ir else []) if o.operation_id == "sentinelOp"]
+    if not sent:
+        v.append(Violation(("ops", "valid_operation_dropped"), "sentinelOp missing from the IR"))
+    else:
+        resp = next((r for r in sent[0].responses if str(r.status_code) == "200"), None)
+        sch = next(iter(resp.content.values()), None) if resp and resp.content else None
+        page = (sch.properties or {}).get("page") if sch is not None else None
+        if page is not None and getattr(page, "_refers_to_schema", None) is not None:  # inline object promoted to a named schema
+            page = page._refers_to_schema
+        if sch is None or page is None or getattr(sch, "_max_depth_exceeded_marker", False) or getattr(page, "_max_depth_exceeded_marker", False) \
+                or "size" not in (getattr(page, "properties", None) or {}):
+            v.append(Violation(("ops", "valid_operation_after_faulty_ones_degraded"), f"sentinel response schema: {sch!r}"[:300]))
+    return v
+
+
+def _ops_strategy():
+    from hypothesis import strategies as st
+
+    R = lambda n: {"$ref": "#/components/schemas/" + n}  # noqa: E731
+    bad_values = [True, False, [], ["x"], "string", 3, 0.5]
+
+    @st.composite
+    def spec(draw):
+        schemas = {"Folder": {"type": "object", "properties": {"name": {"type": "string"}, "parent": R("Folder"), "docs": {"type": "array", "items": R("Doc")}}},
+                   "Doc": {"type": "object", "properties": {"title": {"type": "string"}, "folder": R("Folder")}}}
+        paths = {}
+        n_ops = draw(st.integers(1, 6))
+        n_bad = 0
+        for i in range(n_ops):
+            faulty = draw(st.booleans())
+            leaf = draw(st.sampled_from(bad_values)) if faulty else {"type": "string"}
+            n_bad += 1 if faulty else 0
+            node = leaf
+            for _ in range(draw(st.integers(0, 3))):
+                w = draw(st.sampled_from(["obj", "arr", "oneof", "map", "allof"]))
+                if w == "obj":
+                    node = {"type": "object", "properties": {"title": {"type": "string"}, "folder": R("Folder"), "inner": node}}
+                elif w == "arr":
+                    node = {"type": "array", "items": node}
+                elif w == "oneof":
+                    node = {"oneOf": [R("Doc"), node]}
+                elif w == "map":
+                    node = {"type": "object", "additionalProperties": node}
+                else:
+                    node = {"allOf": [R("Doc"), {"type": "object", "properties": {"own": node}}]}
+            body = {"type": "object", "properties": {"title": {"type": "string"}, "folder": R("Folder"), "payload": node}}
+            where = draw(st.sampled_from(["request", "response", "param"]))
+            op = {"operationId": f"op{i}", "responses": {"200": {"description": "ok", "content": {"application/json": {"schema": R("Doc")}}}}}
+            if where == "request":
+                op["requestBody"] = {"required": True, "content": {"application/json": {"schema": body}}}
+            elif where == "response":
+                op["responses"]["200"]["content"]["application/json"]["schema"] = body
+            else:
+                op["parameters"] = [{"name": "filter", "in": "query", "schema": node if isinstance(node, dict) else {"type": "array", "items": node}}]
+            paths[f"/r{i}"] = {"post": op}
+        paths["/sentinel"] = {"get": {"operationId": "sentinelOp", "responses": {"200": {"description": "ok", "content": {"application/json": {"schema": {
+            "type": "object", "properties": {"items": {"type": "array", "items": R("Folder")}, "total": {"type": "integer"},
+                                             "page": {"type": "object", "properties": {"next": {"type": "string"}, "size": {"type": "integer"}}}}}}}}}}}
+        return {"kind": "ops", "limit": draw(st.sampled_from([None, None, 4, 6, 10])), "n_bad": n_bad,
+                "spec": {"openapi": "3.1.0", "info": {"title": "t", "version": "1"}, "paths": paths, "components": {"schemas": schemas}}}
+
+    return spec()
+
+
 def evaluate(case: dict) -> list[Violation]:
     if case["kind"] == "graph" and not case.get("_plain"):
         bm = load_bitmap()
@@ -156,6 +345,8 @@ def evaluate(case: dict) -> list[Violation]:
         if v and f"{case['stratum']}/{case['p']}/{case['o']}" in bm.get("strata", {}) and not bitmap_get(bm, case["stratum"], case["p"], case["o"], case["g"]):
             return [Violation(("not_in_known_failing_set",) + tuple(x.sig), x.detail) for x in v]
         return v
+    if case["kind"] == "ops":
+        return evaluate_ops(case)
     schemas = schemas_of(case)
     old = os.environ.get("PYOPENAPI_MAX_DEPTH")
     if case["kind"] == "chain":
@@ -163,6 +354,8 @@ def evaluate(case: dict) -> list[Violation]:
     try:
         t = graphparse.build(schemas, budget_for(schemas))
         v = check_trace(t, schemas)
+        if case["kind"] == "raw" and not v and t.exc is None and not case.get("skip_limit_off_clause"):
+            v.extend(cut_by_cycle_detection(schemas))
         if case["kind"] == "chain" and t.context is not None and t.exc is None and not t.recursion_error:
             marker = _has_depth_marker(t.context)
             # differential calibration: the same document with the limit switched off tells how deep the TRACKER's own
@@ -233,7 +426,9 @@ def shards(tier: str, seed: int) -> list[dict]:
         for part in range(64):
             out.append({"mode": "graphs", "stratum": st["name"], "p": p, "o": o, "part": part, "parts": 64, "sample_stride": 6})
     out.append({"mode": "chains"})
-    n_h, per = (8, 400) if tier == "quick" else (32, 4000)
+    n_o, per_o = (8, 150) if tier == "quick" else (32, 1500)
+    out += [{"mode": "ops", "seed": seed * 1000 + 700 + i, "n": per_o} for i in range(n_o)]
+    n_h, per = (16, 400) if tier == "quick" else (48, 4000)
     out += [{"mode": "hyp", "seed": seed * 1000 + i, "n": per} for i in range(n_h)]
     return out
 
@@ -351,6 +546,12 @@ def run_shard(shard: dict) -> dict:
         if stride == 1:
             col.exhaustive = True
         return col.to_dict()
+    if shard["mode"] == "ops":
+        from .. import hyp as _hyp
+
+        for case in _hyp.draw_cases(_ops_strategy(), shard["n"], shard["seed"]):
+            col.record(case, evaluate(case), case["n_bad"] >= 1, ["ops_documents", "ops_with_rejected_subschema" if case["n_bad"] else "ops_all_valid", f"ops_limit_{case['limit']}"])
+        return col.to_dict()
     if shard["mode"] == "chains":
         for limit in (5, 10, 50, 150):
             for kind in ("ref_chain", "array_chain", "inline_nesting", "backref_chain"):
@@ -366,6 +567,9 @@ def run_shard(shard: dict) -> dict:
 
     def body(schemas):
         case = {"kind": "raw", "schemas": schemas}
+        if union_inline_object_cycle_excluded(schemas):
+            col.excluded["union_inline_object_cycle"] += 1  # only the limit-off clause is skipped for these
+            case["skip_limit_off_clause"] = True
         col.record(case, evaluate(case), _raw_cyclic(schemas), ["multigraph", "multigraph_cyclic" if _raw_cyclic(schemas) else "multigraph_acyclic"])
 
     hyp.run_cases(_multigraph_strategy(), shard["n"], shard["seed"], body)
